@@ -73,9 +73,9 @@ def make(max_files):
             outs = [outcomes[i] for i in range(n)]
             rejected = any(o in (1, 2) for o in outs)
             unreadable = any(o == 3 for o in outs)
-            if unreadable and rejected:
-                allowed = (1, 3)  # the property does not rank 1 against 3
-            elif unreadable:
+            # "3 when a named file cannot be read" is unconditional; a verdict of 1 presupposes that every named file
+            # could be judged (this is also what the pinned tree does, in either order)
+            if unreadable:
                 allowed = (3,)
             elif rejected:
                 allowed = (1,)
@@ -157,7 +157,7 @@ def make(max_files):
             else:
                 rejected = any(o in (1, 2) for o in outs)
                 unreadable = any(o == 3 for o in outs)
-                allowed = (1, 3) if (rejected and unreadable) else (3,) if unreadable else (1,) if rejected else (0,)
+                allowed = (3,) if unreadable else (1,) if rejected else (0,)
                 for pth, o in zip(paths, outs):
                     should_judge.append(pth)
                     if o == 3:
@@ -207,7 +207,7 @@ def native_end_to_end(tier):
                 return (1,)
             rej = any(x.startswith("rejected") for x in names)
             unread = any(x in ("missing", "directory") for x in names)
-            return (1, 3) if (rej and unread) else (3,) if unread else (1,) if rej else (0,)
+            return (3,) if unread else (1,) if rej else (0,)
 
         combos = []
         names = list(paths)
